@@ -31,7 +31,9 @@
 #include <string>
 #include <vector>
 
+#include "ErrOut.hpp"
 #include "ErrPod.hpp"
+#include "OutOwned.hpp"
 #include "ErrTok.hpp"
 #include "OutPair.hpp"
 #include "Pod.hpp"
@@ -99,11 +101,11 @@ static Fn make_fn(uint32_t& id_out) {
 enum K { NEW, TRY_NEW, TRY_NEW_DISCARD, MAYBE_NEW, TRY_NEW_POD, ID, BUMP, PEER, MAYBE_PEER, VIEW, TRY_VIEW, VIEW_OWNER, PAIR, TRY_PAIR,
          TAKE_STRS, SUM, FILL, CALL, CALL_TWICE, IGNORE, TRY_CALL, GREET, HOLD, CALL_HELD, UNHOLD, OPT_IN, DOPT_IN, OPT_U32, RES_UNIT, RES_POD,
          DESCRIBE, DESCRIBE_N, TRY_DESCRIBE, DESCRIBE_INTO, DESTROY, MOVE, THROW_SCOPE, SCOPE,
-         LIST_NEW, ITER_BEGIN, ITER_COPY, ITER_DROP, ITER_ADVANCE, ITER_RANGE, HOLD_MUT, CALL_HELD_MUT, CALL_MUT, RESULT_ASSIGN, NKINDS };
+         LIST_NEW, ITER_BEGIN, ITER_COPY, ITER_DROP, ITER_ADVANCE, ITER_RANGE, HOLD_MUT, CALL_HELD_MUT, CALL_MUT, RESULT_ASSIGN, OWNED_PAIR, TRY_NEW_ERR_OUT, NKINDS };
 static const char* KNAME[] = {"new", "try_new", "try_new_discard", "maybe_new", "try_new_pod_err", "id", "bump", "peer", "maybe_peer", "view", "try_view", "view_owner", "pair", "try_pair",
                               "take_strs", "sum", "fill", "call", "call_twice", "ignore", "try_call", "greet", "hold", "call_held", "unhold", "opt_in", "dopt_in", "opt_u32", "res_unit", "res_pod",
                               "describe", "describe_n", "try_describe", "describe_into", "destroy", "move", "throw_scope", "scope",
-                              "list_new", "iter_begin", "iter_copy", "iter_drop", "iter_advance", "iter_range", "hold_mut", "call_held_mut", "call_mut", "result_assign"};
+                              "list_new", "iter_begin", "iter_copy", "iter_drop", "iter_advance", "iter_range", "hold_mut", "call_held_mut", "call_mut", "result_assign", "owned_pair", "try_new_err_out"};
 struct Op { int k = 0; int h = 0, g = 0, d = 0; int n = 0; bool f = true; };
 struct Trace { uint64_t seed = 0, run = 0; std::string prop = "C03"; std::vector<Op> ops; };
 static const int NH = 6;
@@ -174,7 +176,7 @@ static Trace gen_trace(uint64_t seed, uint64_t run, const std::string& prop) {
         case 3: o.k = TRY_NEW; kinds[o.h] = o.f ? 1 : 2; break;
         case 4: o.k = MAYBE_NEW; if (o.f) kinds[o.h] = 1; break;
         case 5: o.k = TRY_NEW_POD; if (o.f) kinds[o.h] = 1; break;
-        default: switch (rng.below(3)) { case 0: o.k = TRY_NEW_DISCARD; break; case 1: o.k = RESULT_ASSIGN; o.n = rng.below(8); break; default: o.k = LIST_NEW; o.n = rng.below(5); kinds[o.h] = 4; } break;
+        default: switch (rng.below(5)) { case 0: o.k = TRY_NEW_DISCARD; break; case 1: o.k = RESULT_ASSIGN; o.n = rng.below(8); break; case 2: o.k = OWNED_PAIR; o.n = rng.below(3); break; case 3: o.k = TRY_NEW_ERR_OUT; o.n = rng.below(2); if (o.n == 0) kinds[o.h] = o.f ? 1 : 2; break; default: o.k = LIST_NEW; o.n = rng.below(5); kinds[o.h] = 4; } break;
       }
       t.ops.push_back(o); continue;
     }
@@ -278,6 +280,27 @@ struct Exec {
         auto r = Tok::try_new(o.f);
         if (r.is_ok() != o.f) fail("O5-value-integrity", "try_new returned the wrong arm");
         inc("result_dropped_unextracted");
+        break;
+      }
+      case OWNED_PAIR: {
+        // a by-value out-struct owning objects: kept (n==0: both fields moved into handles), partly kept, or dropped whole
+        if (x.kind || hs[o.d].kind || o.d == o.h) return false;
+        OutOwned p = Tok::make_owned_pair(o.f);
+        if (p.n != 77 || (p.b != nullptr) != o.f || !p.a) { fail("O5-value-integrity", "make_owned_pair fields wrong"); break; }
+        if (o.n == 0) { put_tok(o.h, std::move(p.a)); if (p.b) put_tok(o.d, std::move(p.b)); }
+        else if (o.n == 1) { put_tok(o.h, std::move(p.a)); }
+        inc("out_struct_owning_objects_returned");
+        break;
+      }
+      case TRY_NEW_ERR_OUT: {
+        // Result whose error type is an out-struct owning an object; n==1: the result is dropped unextracted
+        if (x.kind) return false;
+        auto r = Tok::try_new_err_out(o.f);
+        if (r.is_ok() != o.f) { fail("O5-value-integrity", "try_new_err_out wrong arm"); break; }
+        if (o.n == 0) {
+          if (o.f) put_tok(o.h, std::move(r).ok().value());
+          else { ErrOut e = std::move(r).err().value(); inc("fault_arm_err_fired"); if (e.code != -3 || !e.culprit) fail("O5-value-integrity", "ErrOut fields wrong"); else put_err(o.h, std::move(e.culprit)); }
+        }
         break;
       }
       case RESULT_ASSIGN: {
